@@ -24,6 +24,15 @@ Interpretation (fixed here):
    are mutually comparable (all numbers, all strings, or all None); otherwise only the SET of rows
    is demanded by the oracle (the model still predicts the exact list, with the SortKey fallback).
  * lookupOne = first row of that order, or the empty record (id 0).
+ * Records and row ids: a Record - as the looked-up key (`$refcol`, `rec`), as the cell of a Ref
+   column, as an element of a list cell (RefList, an Any formula column returning
+   `list(R.lookupRecords(..))` / `[$r]`) - counts as its row id, so `owner=$id`, `owner=rec`,
+   `owner=rec.id` name the same key and `CONTAINS($pr)` == `CONTAINS($pr.id)` (documented for
+   Reference columns; generated Record keys are of the table the column refers to).  `.id` of a
+   reference to a REMOVED row is 0, the stored number still is the key of `$pr` itself.
+ * Several keys in one call (any mix of exact and CONTAINS keys): a row is returned iff EVERY key
+   matches its column by the rules above; stream "mixed" (see MIXED_FIXED, gen_mixed_probe,
+   trans_family, fixed_witness) exercises these, edits of the indexed cells included.
  * Outside the property (model/implementation correspondence only): unhashable (list) exact keys
    -> TypeError, NaN keys (never generated), unknown sort column -> KeyError, malformed
    order_by / sort_by -> TypeError.
@@ -95,20 +104,126 @@ PROBES = [
 ]
 
 
+def src_text(src):
+  """formula text of a key source: a column of P (`$p`) or, prefixed with '=', an expression of the
+  probing row: `=rec` (the Record itself), `=$id`, `=rec.id`, `=$pr.id` (row ids), or a literal."""
+  return src[1:] if src.startswith("=") else "$" + src
+
+
+def norm_probe(pr):
+  """probe descriptor after a JSON round trip (replay files): kw entries back to tuples"""
+  kw = []
+  for (tcol, kind, src) in pr["kw"]:
+    kw.append((tcol, tuple(kind) if isinstance(kind, (list, tuple)) else kind, src))
+  order = pr.get("order")
+  if order is not None:
+    order = (order[0], tuple(order[1]) if isinstance(order[1], list) else order[1])
+  return {"kw": kw, "order": order, "one": bool(pr.get("one"))}
+
+
 def formula_text(pr):
   args = []
   for (tcol, kind, pcol) in pr["kw"]:
     if kind == "p":
-      args.append("%s=$%s" % (tcol, pcol))
+      args.append("%s=%s" % (tcol, src_text(pcol)))
     elif kind == "c":
-      args.append("%s=CONTAINS($%s)" % (tcol, pcol))
+      args.append("%s=CONTAINS(%s)" % (tcol, src_text(pcol)))
     else:
-      args.append("%s=CONTAINS($%s, match_empty=%r)" % (tcol, pcol, kind[1]))
+      args.append("%s=CONTAINS(%s, match_empty=%r)" % (tcol, src_text(pcol), kind[1]))
   if pr["order"] is not None:
     args.append("%s=%r" % (pr["order"][0], pr["order"][1]))
   if pr["one"]:
     return "T.lookupOne(%s).id" % ", ".join(args)
   return "[r.id for r in T.lookupRecords(%s)]" % ", ".join(args)
+
+
+# ---------------------------------------------------------------------------------------------
+# MIXED key kinds ("mixed" histories): CONTAINS on a list column combined with equality keys on
+# Ref / Int / Text / Bool / Choice columns in ONE call, keys given as Records, row ids, plain values;
+# Any formula columns of T whose cells are lists of Records / ints / both.
+#
+# Extra columns of T in a mixed history: own Ref:P, b Bool, ch Choice, n Int, and two Any FORMULA
+# columns arecs / aints (one formula each per history, from the variants below).  All formulas are
+# total (no error cells): a key column holding an error is C13's neighbour, not this stream.
+
+AREC_FORMULAS = [
+  "[$r, $r] + list(R.lookupRecords(name=$k2))",            # Records, duplicates, AltText when $r is alt text
+  "[$r] if $b is True else (None if $ch == 'a' else [])",    # list / None / empty list
+  "$rl",                                                     # a RecordSet (or alt text) stored in an Any cell
+  "list(R.lookupRecords(name=$k2, order_by='-id')) or None", # list(lookupRecords) / None
+  "[$r, $id, $r]",                                           # Records and row ids mixed in one list
+]
+AINT_FORMULAS = [
+  "[x.id for x in R.lookupRecords(name=$k2)] + [$n]",      # ints (+ None / AltText element)
+  "[$n, $n, $id]",                                           # duplicates
+  "[$id, $r]",                                               # row ids and Records mixed
+  "[$n] if $n else ($n if $b else 'txt')",                   # list / 0 / None / AltText / str scalar
+]
+
+# candidate key sources per looked-up column: (source, is a Record?, is a row id?)
+EQ_SOURCES = {
+  "r":   ["pr", "=$pr.id", "=$id", "=2", "pr", "=$pr.id"],
+  "own": ["=rec", "=$id", "=rec.id", "=1", "=rec", "=$id"],
+  "n":   ["q", "=$id", "=1", "=2"],
+  "k2":  ["q", "='a'", "='b'", "p"],
+  "b":   ["=True", "=False", "p", "=True"],
+  "ch":  ["p", "='a'", "q", "='b'"],
+  "k":   ["p", "q"],
+}
+CT_SOURCES = {
+  "tags":  ["p", "='a'", "='b'", "q", "p"],
+  "rl":    ["pr", "=$pr.id", "=$id", "=2", "pr"],
+  "anyc":  ["p", "q", "=1"],
+  "arecs": ["pr", "=$pr.id", "=$id", "pr"],
+  "aints": ["q", "=$id", "=$pr.id", "pr", "=1"],
+}
+MX_ORDERS = [None, None, ("order_by", "-s1"), ("order_by", "s1"), ("order_by", ("s2", "-s1")), ("order_by", None),
+             ("sort_by", "s1"), ("order_by", ("-s1", "id")), ("order_by", ("s2", "-manualSort"))]
+
+# fixed witnesses: the shapes of the coverage gap, present in EVERY mixed history
+MIXED_FIXED = [
+  _pr([("own", "p", "=$id"), ("tags", "c", "='a'")], ("order_by", "-s1")),
+  _pr([("own", "p", "=rec"), ("tags", "c", "p")], None, one=True),
+  _pr([("r", "p", "pr"), ("tags", "c", "p")]),
+  _pr([("r", "p", "=$pr.id"), ("rl", "c", "pr")], ("order_by", "s1")),
+  _pr([("arecs", "c", "pr")]),
+  _pr([("arecs", "c", "=$pr.id"), ("b", "p", "=True")], ("order_by", ("s2", "-s1"))),
+  _pr([("aints", "c", "q"), ("own", "p", "=rec")]),
+  _pr([("n", "p", "=$id"), ("r", "p", "pr"), ("tags", ("c", ""), "p")], ("order_by", "-s1"), one=True),
+]
+
+
+def gen_mixed_probe(rng):
+  """one lookup with 1-3 keys, at least one CONTAINS; equality keys mostly present"""
+  r = rng.random()
+  n_eq = 0 if r < 0.12 else (1 if r < 0.7 else 2)
+  n_ct = 1 if (n_eq == 2 or rng.random() < 0.8) else 2
+  kw = []
+  for c in rng.sample(sorted(CT_SOURCES), n_ct):
+    kind = "c"
+    if rng.random() < 0.2:
+      kind = ("c", rng.choice(["", 0, None, "a", 1]))
+    kw.append((c, kind, rng.choice(CT_SOURCES[c])))
+  eqcols = sorted(EQ_SOURCES)
+  weights = [4 if c in ("r", "own") else 1 for c in eqcols]
+  chosen = []
+  while len(chosen) < n_eq:
+    c = rng.choices(eqcols, weights)[0]
+    if c not in chosen:
+      chosen.append(c)
+  for c in chosen:
+    kw.append((c, "p", rng.choice(EQ_SOURCES[c])))
+  kw.sort(key=lambda e: e[0])
+  return _pr(kw, rng.choice(MX_ORDERS), one=rng.random() < 0.3)
+
+
+def probe_class(pr):
+  """(n CONTAINS keys, n equality keys, has an equality key on a Ref column, CONTAINS on an Any formula column)"""
+  nc = sum(1 for (_, k, _) in pr["kw"] if k != "p")
+  ne = sum(1 for (_, k, _) in pr["kw"] if k == "p")
+  ref = any(k == "p" and c in ("r", "own") for (c, k, _) in pr["kw"])
+  anyl = any(k != "p" and c in ("arecs", "aints") for (c, k, _) in pr["kw"])
+  return nc, ne, ref, anyl
 
 
 # ---------------------------------------------------------------------------------------------
@@ -238,8 +353,16 @@ def install_wrappers():
       try:
         res = orig(self, rec)
       except BaseException as e:
+        if sess.formula_keys and type(e).__name__ == "OrderError":
+          # a FORMULA key column was not up to date: get_new_keys_iter raised before the index was
+          # touched and the engine calls again later; no event of the index happened
+          sess.tracer.order_errors += 1
+          raise
         sess.event(["deliverKey", rec._row_id], {"raise": type(e).__name__})
         raise
+      if sess.formula_keys:
+        # formula key cells are computed INSIDE the call (getattr(rec, col)), before they are read
+        sess.sync()
       sess.event(["deliverKey", rec._row_id], {"keys": sess.ckeys(res)})
       return res
     cls.update_record = update_record
@@ -299,6 +422,12 @@ def install_wrappers():
     except TypeError:
       sess.event(["deliverSort", rec._row_id, list(sort_spec)], {"error": "TypeError"})
       raise
+    except BaseException as e:
+      if sess.formula_keys and type(e).__name__ == "OrderError":
+        sess.tracer.order_errors += 1
+      raise
+    if sess.formula_keys:
+      sess.sync()
     sess.event(["deliverSort", rec._row_id, list(sort_spec)], {"keys": sess.ckeys(res)})
     return res
   LMC._reset_sorted_versions = _reset_sorted_versions
@@ -328,6 +457,7 @@ class Session(object):
     self.expect = []
     self.shadow = {}
     self.dead = None
+    self.formula_keys = False     # some key column is a formula column (set by sync)
     self.bundle_of_event = []
     try:
       for k in self.kinds:
@@ -381,6 +511,7 @@ class Session(object):
       scols = [tbl.get_column(c) for c in SORTCOLS]
     except KeyError:
       return self.kill("column gone")
+    self.formula_keys = any(c.is_formula() for c in kcols)
     try:
       for r in tbl.row_ids:
         r = int(r)
@@ -446,6 +577,7 @@ class Tracer(object):
     self.step_no = 0
     self.harness_errors = []
     self.cache_hits = 0
+    self.order_errors = 0
 
   def new_session(self, col):
     self.sessions.append(Session(self, col))
@@ -488,7 +620,8 @@ class Table(object):
     c = self.cols.setdefault(col, {})
     if r not in c:
       v = _extract(self.tbl.get_column(col).get_cell_value(r))
-      c[r] = list(v) if isinstance(v, tuple) else v
+      # a Record inside a list cell (Any formula columns) counts as its row id, like a Record cell
+      c[r] = [_extract(x) for x in v] if isinstance(v, (tuple, list)) else v
     return c[r]
 
   def convert_key(self, col, value):
@@ -763,9 +896,19 @@ class History(object):
                   "direct": 0}
     self.kinds = {}
     self.nontrivial = []
-    self.probes = [PROBES[i] for i in cfg["probes"]]
+    self.probes = [PROBES[i] for i in cfg["probes"]] + [norm_probe(x) for x in cfg.get("xprobes", [])]
     self.ktype = cfg["ktype"]
     self.type_changed = False
+    self.mixed = bool(cfg.get("mixed"))
+    self.pclass = [probe_class(pr) for pr in self.probes]
+    self.xsrcs = sorted(set(src for pr in self.probes for (_, _, src) in pr["kw"] if src.startswith("=")))
+    self.prev_got = {}
+    if self.mixed:
+      self.KEYCOLS = History.KEYCOLS + ["own", "b", "ch", "n"]
+      for k in ("mx_probe_cells", "mx_combined_cells", "mx_combined_ref_eq_cells", "mx_combined_nonempty",
+                "mx_combined_ref_eq_nonempty", "mx_anylist_cells", "mx_anylist_nonempty", "mx_record_key_cells",
+                "mx_rowid_key_cells", "mx_result_changed_after_edit", "mx_lookupOne_cells", "mx_ordered_cells"):
+        self.stats[k] = 0
 
   # -- engine access
   def raw(self, bundle):
@@ -777,6 +920,8 @@ class History(object):
     return res
 
   def setup(self):
+    if self.mixed:
+      return self.setup_mixed()
     b = [["AddTable", "R", [col("name", "Text")]],
          ["AddTable", "T", [col("k", self.ktype), col("k2", "Text"), col("r", "Ref:R"),
                             col("tags", "ChoiceList"), col("rl", "RefList:R"), col("anyc", "Any"),
@@ -785,6 +930,25 @@ class History(object):
           [{"id": "f%d" % i, "type": "Any", "isFormula": True, "formula": formula_text(pr)}
            for i, pr in enumerate(self.probes)]],
          ["BulkAddRecord", "R", [None] * 4, {"name": ["a", "b", "c", "d"]}]]
+    for x in b:
+      r = self.raw([x])
+      if not r.ok:
+        raise common.Infra("setup action rejected: %r %r" % (x, r.error))
+
+  def setup_mixed(self):
+    """R, P (with the probes; P is still empty), then T with a Ref:P column and the Any formula columns"""
+    def fcol(i, f):
+      return {"id": i, "type": "Any", "isFormula": True, "formula": f}
+    b = [["AddTable", "R", [col("name", "Text")]],
+         ["AddTable", "P", [col("p"), col("q"), col("pr", "Ref:R")] +
+          [fcol("f%d" % i, formula_text(pr)) for i, pr in enumerate(self.probes)]],
+         ["AddTable", "T", [col("k", self.ktype), col("k2", "Text"), col("r", "Ref:R"),
+                            col("tags", "ChoiceList"), col("rl", "RefList:R"), col("anyc", "Any"),
+                            col("s1", "Any"), col("s2", "Text"),
+                            col("own", "Ref:P"), col("b", "Bool"), col("ch", "Choice"), col("n", "Int"),
+                            fcol("arecs", AREC_FORMULAS[self.cfg["arecs"]]),
+                            fcol("aints", AINT_FORMULAS[self.cfg["aints"]])]],
+         ["BulkAddRecord", "R", [None] * 4, {"name": ["a", "b", "c", "a"]}]]
     for x in b:
       r = self.raw([x])
       if not r.ok:
@@ -893,6 +1057,8 @@ class History(object):
       try:
         for pc in ("p", "q", "pr"):
           args[pc] = ptbl.get_column(pc).get_cell_value(prow)
+        for src in self.xsrcs:
+          args[src] = self.src_value(ptbl, prow, src, args)
       except Exception:
         continue
       for i, pr in enumerate(self.probes):
@@ -902,6 +1068,8 @@ class History(object):
         else:
           got = list(raw) if isinstance(raw, (list, tuple)) else raw
         self.stats["probe_cells"] += 1
+        if self.mixed:
+          self.count_mixed(i, pr, prow, args, got)
         bad = judge_probe(tab, pr, args, got)
         if bad:
           bad = self.classify_stale(tab, pr, args, got, bad)
@@ -920,6 +1088,56 @@ class History(object):
           bad = None
         if bad:
           self.index_problems.append(("%s: %s" % (cid, bad), si))
+
+  def src_value(self, ptbl, prow, src, base):
+    """the value of a key source of the form '=<expression of the probing row>'"""
+    import ast
+    import records
+    e = src[1:]
+    if e == "rec":
+      return ptbl.Record(prow, None)
+    if e in ("$id", "rec.id"):
+      return int(prow)
+    if e == "$pr.id":
+      v = base["pr"]
+      if not isinstance(v, records.Record):
+        raise ValueError("$pr is not a record")
+      # `.id` of a reference to a REMOVED row is 0 (the id column of the target), not the stored number
+      rtbl = self.doc.engine.tables[v._table.table_id]
+      return int(v._row_id) if int(v._row_id) in set(int(x) for x in rtbl.row_ids) else 0
+    return ast.literal_eval(e)
+
+  def count_mixed(self, i, pr, prow, args, got):
+    """input distribution of the mixed-key stream (evidence counters)"""
+    import records
+    nc, ne, ref, anyl = self.pclass[i]
+    if not nc:
+      return
+    st = self.stats
+    nonempty = (isinstance(got, list) and len(got) > 0) or \
+               (isinstance(got, int) and not isinstance(got, bool) and got != 0)
+    st["mx_probe_cells"] += 1
+    if pr["one"]:
+      st["mx_lookupOne_cells"] += 1
+    if pr["order"] is not None:
+      st["mx_ordered_cells"] += 1
+    if any(isinstance(args[src], records.Record) for (_, _, src) in pr["kw"]):
+      st["mx_record_key_cells"] += 1
+    if any(src in ("=$id", "=rec.id", "=$pr.id") for (_, _, src) in pr["kw"]):
+      st["mx_rowid_key_cells"] += 1
+    if anyl:
+      st["mx_anylist_cells"] += 1
+      st["mx_anylist_nonempty"] += 1 if nonempty else 0
+    if nc and ne:
+      st["mx_combined_cells"] += 1
+      st["mx_combined_nonempty"] += 1 if nonempty else 0
+      if ref:
+        st["mx_combined_ref_eq_cells"] += 1
+        st["mx_combined_ref_eq_nonempty"] += 1 if nonempty else 0
+      prev = self.prev_got.get((prow, i))
+      if prev is not None and prev != got:
+        st["mx_result_changed_after_edit"] += 1
+      self.prev_got[(prow, i)] = got
 
   STALE_SIG = ("stored lookup result is stale after a type change of the looked-up key column made while "
                "the looked-up table was empty (the same call evaluated afresh returns the documented rows)")
@@ -980,6 +1198,18 @@ class History(object):
     return rng.choice([0, 1, 2, "a", "1", None, True, 1.0, 2.5, ["L", 1, 2], "x", False])
 
   def gen_cell(self, rng, c, raw=False):
+    if self.mixed and not raw and rng.random() < 0.6:
+      # concentrated values: lookups with 2-3 keys must find rows often
+      if c == "r":
+        return rng.choice([1, 2, 1, 2, 3])
+      if c == "tags":
+        return rng.choice([["L", "a"], ["L", "a", "b"], ["L", "b"], ["L", "b", "a", "b"], None])
+      if c == "rl":
+        return rng.choice([["L", 1], ["L", 1, 2], ["L", 2], ["L", 2, 1, 2], None])
+      if c == "anyc":
+        return rng.choice([["L", 1, "a"], ["L", "a", "b"], ["L", 2, 1], None, ["L"]])
+      if c == "k2":
+        return rng.choice(["a", "b", "a"])
     if c == "k":
       return self.gen_k(rng, raw)
     if c == "k2":
@@ -990,13 +1220,23 @@ class History(object):
       return rng.choice([None, ["L"], ["L", "a"], ["L", "a", "b"], ["L", "b", "a", "b"], "zz", ["L", ""],
                          ["L", "x", "1"], ["L", "a"], ""])
     if c == "rl":
-      return rng.choice([None, ["L", 1], ["L", 1, 2], ["L", 3, 3], ["L", 2, 4], ["L"], ["L", 1]])
+      return rng.choice([None, ["L", 1], ["L", 1, 2], ["L", 3, 3], ["L", 2, 4], ["L"], ["L", 1]] +
+                        (["alt", ["L", 2, 1, 2]] if self.mixed else []))
     if c == "anyc":
       return rng.choice([None, 0, False, "", "ab", ["L"], ["L", 1, "a"], ["L", 1, True, 1.0], 5, ["L", None],
                          ["L", "a", "b"], ["L", 0], ["L", 2, 1], True, 1])
+    if c == "own":
+      return rng.choice([0, 1, 2, 3, 1, 2, "zz", 1, 2, 3])
+    if c == "b":
+      return rng.choice([True, False, None, "x", True, False, 1, True])
+    if c == "ch":
+      return rng.choice(["a", "b", "", None, "a", "x", "a", "b"])
+    if c == "n":
+      return rng.choice([0, 1, 2, 1, 2, 3, None, "x", 1, 2])
     if c == "s1":
       if self.cfg.get("mixed_sort"):
-        return rng.choice([0, 1, 2, 3, 4, 5, 1, 2, None, "a", True, "b", 2.5])
+        # (2.5 is outside the model's sort universe: it would drop every session of the history)
+        return rng.choice([0, 1, 2, 3, 4, 5, 1, 2, None, "a", True, "b"] + ([] if self.mixed else [2.5]))
       return rng.choice([0, 1, 2, 3, 4, 5, 1, 2, 3, True])
     if c == "s2":
       return rng.choice(["a", "b", "c", "", "B", "a", "b"] + ([None] if self.cfg.get("mixed_sort") else []))
@@ -1018,7 +1258,12 @@ class History(object):
          ("addP", 3 if len(pids) < 5 else 0.3), ("remP", 0.7 if len(pids) > 2 else 0),
          ("remR", 0.5), ("addR", 0.3), ("rawKey", 1.2 if tids else 0),
          ("direct", 1.5 if self.cfg.get("direct") else 0)]
+    if self.mixed and tids:
+      w += [("mx_moveRef", 4), ("mx_listFlip", 4), ("mx_emptyList", 1.5), ("mx_moveList", 3),
+            ("mx_swap", 1.5 if len(tids) > 1 else 0), ("mx_renameR", 1.2), ("mx_both", 2)]
     kind = rng.choices([k for k, _ in w], [x for _, x in w])[0]
+    if kind.startswith("mx_"):
+      return self.gen_mixed_step(rng, kind, tids)
     if kind == "addT":
       n = rng.choice([1, 1, 2, 3])
       ids = [None] * n
@@ -1079,8 +1324,12 @@ class History(object):
       vals = {}
       for c in rng.sample(["p", "q", "pr"], rng.choice([1, 1, 2])):
         vals[c] = self.gen_p(rng, c)
+      if self.mixed:
+        vals = self.gen_p_row(rng, tuple(sorted(vals)) if rng.random() < 0.5 else ("p", "q", "pr"))
       return self.apply([["UpdateRecord", "P", row, vals]], kind)
     if kind == "addP":
+      if self.mixed:
+        return self.apply([["AddRecord", "P", None, self.gen_p_row(rng)]], kind)
       return self.apply([["AddRecord", "P", None, {c: self.gen_p(rng, c) for c in ("p", "q", "pr")}]], kind)
     if kind == "remP":
       return self.apply([["RemoveRecord", "P", rng.choice(pids)]], kind)
@@ -1094,6 +1343,93 @@ class History(object):
     if kind == "direct":
       return self.direct(self.gen_direct(rng))
     raise KeyError(kind)
+
+  MX_LISTS = {"tags": [["L", "a"], ["L", "a", "b"], ["L", "b", "b", "a"], ["L", "x"], ["L", "b"]],
+              "rl": [["L", 1], ["L", 1, 2], ["L", 2, 2], ["L", 3, 4], ["L", 2]],
+              "anyc": [["L", 1, "a"], ["L", "a", "b"], ["L", 2, 1], ["L", 1, 1], ["L", "b", 2]]}
+  MX_SCALARS = {"tags": ["zz", "", "a"], "rl": ["alt", "1"], "anyc": [5, "ab", 0, "a", True]}
+
+  def raw_cell(self, c, row):
+    """the stored value of T[row].c in the form user actions take"""
+    v = self.doc.engine.tables["T"].get_column(c).raw_get(row)
+    if isinstance(v, (list, tuple)):
+      return ["L"] + list(v)
+    return v
+
+  def gen_mixed_step(self, rng, kind, tids):
+    """EDITS of cells under a combined index: the row has to leave its old keys and enter the new ones"""
+    row = rng.choice(tids)
+    if kind == "mx_moveRef":        # move a row to another Ref key, its list cells stay
+      c = rng.choice(["r", "own", "r", "own", "n"])
+      cur = self.raw_cell(c, row)
+      new = rng.choice([x for x in [1, 2, 3, 4, 1, 2, 0, "x"] if x != cur])
+      return self.apply([["UpdateRecord", "T", row, {c: new}]], kind)
+    if kind in ("mx_listFlip", "mx_emptyList", "mx_moveList"):
+      c = rng.choice(["tags", "rl", "anyc", "tags", "rl"])
+      cur = self.raw_cell(c, row)
+      if kind == "mx_emptyList":
+        new = rng.choice([None, ["L"]])
+      elif kind == "mx_moveList":     # other elements / duplicates
+        new = rng.choice([x for x in self.MX_LISTS[c] if x != cur])
+      elif isinstance(cur, list) and len(cur) > 1:
+        new = rng.choice(self.MX_SCALARS[c])       # list -> non-list value
+      else:
+        new = rng.choice(self.MX_LISTS[c])         # non-list / empty -> list
+        kind = "mx_listBack"
+      return self.apply([["UpdateRecord", "T", row, {c: new}]], kind)
+    if kind == "mx_swap":           # two rows exchange their (Ref key, list cell) in one action
+      r2 = rng.choice([x for x in tids if x != row])
+      cols = rng.choice([["r", "tags"], ["own", "rl"], ["r", "rl"], ["own", "tags"], ["r", "own", "tags", "rl"]])
+      rows = sorted([row, r2])
+      vals = {c: [self.raw_cell(c, rows[1]), self.raw_cell(c, rows[0])] for c in cols}
+      return self.apply([["BulkUpdateRecord", "T", rows, vals]], kind)
+    if kind == "mx_renameR":        # the Any formula columns follow R.name / k2
+      if rng.random() < 0.5:
+        rids = self.r_ids()
+        if rids:
+          return self.apply([["UpdateRecord", "R", rng.choice(rids), {"name": rng.choice(["a", "b", "c", ""])}]], kind)
+      return self.apply([["UpdateRecord", "T", row, {"k2": rng.choice(["a", "b", "c", "", None])}]], kind)
+    if kind == "mx_both":           # Ref key, list cell and a sort cell of one row in one bundle
+      c1, c2 = rng.choice(["r", "own"]), rng.choice(["tags", "rl"])
+      acts = [["UpdateRecord", "T", row, {c1: rng.choice([1, 2, 3, 0]), c2: rng.choice(self.MX_LISTS[c2] + self.MX_SCALARS[c2]),
+                                          "s1": self.gen_cell(rng, "s1")}]]
+      if rng.random() < 0.4:
+        acts.append(["UpdateRecord", "T", rng.choice(tids), {c2: rng.choice(self.MX_LISTS[c2] + [None])}])
+      return self.apply(acts, kind)
+    raise KeyError(kind)
+
+  def run_script(self, steps):
+    """a scripted history: [(kind, bundle)]; bundle None = undo of the last successful bundle"""
+    self.setup()
+    for (kind, bundle) in steps:
+      if bundle is None:
+        if self.last is not None:
+          self.apply([["ApplyUndoActions", self.last.raw_undo]], "undo")
+        continue
+      self.apply(bundle, kind)
+
+  def gen_p_row(self, rng, cols=("p", "q", "pr")):
+    """cells of a probing row; in a mixed history often DERIVED from one row of T (p = an element of
+    its list cells, pr = its Ref key, q = one of its Int / Text keys) so that multi-key lookups hit"""
+    vals = {c: self.gen_p(rng, c) for c in cols}
+    tids = self.t_ids() if self.mixed else []
+    if tids and rng.random() < 0.6:
+      try:
+        tab = Table(self.doc)
+        row = rng.choice(tids)
+        els = [x for c in ("tags", "anyc") for x in (tab.cell(c, row) if is_list(tab.cell(c, row)) else [])
+               if isinstance(x, (str, int)) and not isinstance(x, bool)]
+        if "p" in vals and els:
+          vals["p"] = rng.choice(els)
+        r = tab.cell("r", row)
+        if "pr" in vals and isinstance(r, int) and not isinstance(r, bool):
+          vals["pr"] = r
+        qs = [x for x in (tab.cell("n", row), tab.cell("k2", row)) if isinstance(x, (str, int)) and not isinstance(x, bool)]
+        if "q" in vals and qs:
+          vals["q"] = rng.choice(qs)
+      except Exception:
+        pass
+    return vals
 
   def gen_p(self, rng, c):
     if c == "p":
@@ -1114,7 +1450,7 @@ class History(object):
         return ["L", 1]
       return rng.choice(POOL_P)
     if c == "q":
-      return rng.choice(POOL_Q)
+      return rng.choice(POOL_Q + ([1, 2, 1, 2, 3] if self.mixed else []))
     return rng.choice([0, 1, 2, 3, 4, 1, 2])
 
   def gen_direct(self, rng):
@@ -1145,7 +1481,11 @@ class History(object):
     n = rng.choice([2, 3, 4, 5])
     self.apply([["BulkAddRecord", "T", [None] * n, self.gen_cols(rng, n, self.KEYCOLS + ["s1", "s2"])]], "addT")
     m = rng.choice([2, 3, 4])
-    self.apply([["BulkAddRecord", "P", [None] * m, {c: [self.gen_p(rng, c) for _ in range(m)] for c in ("p", "q", "pr")}]], "addP")
+    if self.mixed:
+      rows = [self.gen_p_row(rng) for _ in range(m)]
+      self.apply([["BulkAddRecord", "P", [None] * m, {c: [x[c] for x in rows] for c in ("p", "q", "pr")}]], "addP")
+    else:
+      self.apply([["BulkAddRecord", "P", [None] * m, {c: [self.gen_p(rng, c) for _ in range(m)] for c in ("p", "q", "pr")}]], "addP")
     for _ in range(n_steps):
       self.gen_step(rng)
 
@@ -1192,6 +1532,134 @@ def make_cfg(rng, i):
   keep = [0, 2, 4, 7, 10, 11] + rng.sample([x for x in probes if x not in (0, 2, 4, 7, 10, 11)], 8)
   return {"ktype": rng.choice(KTYPES + ["Int", "Any"]), "probes": sorted(keep),
           "mixed_sort": rng.random() < 0.3, "direct": rng.random() < 0.35}
+
+
+MIXED_CLASSIC = [0, 10, 12, 21]     # classic probes kept in a mixed history
+
+
+def make_cfg_mixed(rng):
+  xp, seen = [], set()
+  for pr in MIXED_FIXED + [gen_mixed_probe(rng) for _ in range(14)]:
+    t = formula_text(pr)
+    if t not in seen and len(xp) < len(MIXED_FIXED) + 8:
+      seen.add(t)
+      xp.append(pr)
+  return {"ktype": rng.choice(KTYPES + ["Int", "Any"]), "probes": list(MIXED_CLASSIC), "xprobes": xp, "mixed": True,
+          "arecs": rng.randrange(len(AREC_FORMULAS)), "aints": rng.randrange(len(AINT_FORMULAS)),
+          "mixed_sort": rng.random() < 0.2, "direct": False}
+
+
+def euler_pairs(n):
+  """a closed walk over the states 0..n-1 that uses every ordered pair (a, b), a == b included,
+  exactly once as consecutive states (Hierholzer on the complete digraph with loops)"""
+  nxt = [0] * n
+  stack, out = [0], []
+  while stack:
+    v = stack[-1]
+    if nxt[v] < n:
+      nxt[v] += 1
+      stack.append(nxt[v] - 1)
+    else:
+      out.append(stack.pop())
+  out.reverse()
+  return out
+
+
+def trans_family(variant, thorough):
+  """EXHAUSTIVE small scope: one row of T walks through EVERY ordered pair (state before, state
+  after) of (Ref key, list cell) states, next to two constant rows; after every single edit every
+  combined probe of four probing rows is judged (the row must have left exactly its old keys)."""
+  refs = [1, 2, "x"] + ([0] if thorough else [])
+  lists = [None, ["a"], ["a", "b"], "zz"] + ([["b", "b"], []] if thorough else [])
+  states = [(r, l) for r in refs for l in lists]
+  def enc(l, m=None):
+    if isinstance(l, list):
+      return ["L"] + [(m[x] if m else x) for x in l]
+    return ("alt" if (m and l == "zz") else l)
+  def bundle(st):
+    r, l = st
+    return [["UpdateRecord", "T", 1, {"r": r, "own": r, "tags": enc(l), "rl": enc(l, {"a": 1, "b": 2}),
+                                      "b": r == 1, "n": r if isinstance(r, int) else None}]]
+  xp = [
+    _pr([("r", "p", "pr"), ("tags", "c", "p")]),
+    _pr([("own", "p", "=$pr.id"), ("tags", "c", "p")], ("order_by", "-s1")),
+    _pr([("own", "p", "=rec"), ("rl", "c", "pr")]),
+    _pr([("r", "p", "=$pr.id"), ("rl", "c", "pr")], ("order_by", "s1"), one=True),
+    _pr([("arecs", "c", "pr"), ("b", "p", "=True")]),
+    _pr([("aints", "c", "=$pr.id"), ("r", "p", "pr")], None, one=bool(variant)),
+    _pr([("r", "p", "pr"), ("tags", ("c", "a"), "p")], ("order_by", ("s2", "-s1"))),
+    _pr([("n", "p", "q"), ("own", "p", "=$id"), ("tags", "c", "='a'")]),
+    _pr([("arecs", "c", "=$pr.id")], ("order_by", "-s1"), one=not variant),
+  ]
+  cfg = {"ktype": "Int", "probes": [10], "xprobes": xp, "mixed": True, "mixed_sort": False, "direct": False,
+         "arecs": [0, 2, 4][variant % 3], "aints": [2, 1, 0][variant % 3]}
+  steps = [("addP", [["BulkAddRecord", "P", [None] * 4, {"p": ["a", "a", "b", "b"], "q": [1, 2, 1, 2], "pr": [1, 2, 1, 2]}]]),
+           ("addT", [["BulkAddRecord", "T", [None] * 3,
+                      {"r": [1, 1, 2], "own": [1, 1, 2], "tags": [None, ["L", "a", "b"], ["L", "a"]],
+                       "rl": [None, ["L", 1, 2], ["L", 1]], "b": [True, True, False], "n": [1, 1, 2],
+                       "k2": ["a", "b", ""], "s1": [3, 5, 1], "s2": ["a", "b", "a"]}]])]
+  for i in euler_pairs(len(states)):
+    steps.append(("mx_transition", bundle(states[i])))
+  return cfg, steps
+
+
+def fixed_witness():
+  """The shapes of the coverage gap as a fixed, scripted history (Tasks = T, People = P): combined
+  CONTAINS + Ref-equality lookups, then every kind of edit of the indexed cells."""
+  cfg = {"ktype": "Int", "probes": [10, 12], "xprobes": list(MIXED_FIXED), "mixed": True, "mixed_sort": False,
+         "direct": False, "arecs": 0, "aints": 2}
+  L = lambda *x: ["L"] + list(x)
+  steps = [
+    ("addP", [["BulkAddRecord", "P", [None] * 3, {"p": ["a", "b", "a"], "q": [1, 2, 3], "pr": [1, 2, 3]}]]),
+    ("addT", [["BulkAddRecord", "T", [None] * 5,
+               {"own": [1, 1, 2, 0, 2], "r": [1, 2, 1, 3, "x"], "tags": [L("a"), L("a", "b"), L("b"), None, "zz"],
+                "rl": [L(1, 2), L(2), None, L(3, 3), "alt"], "n": [1, 1, 2, 3, None], "b": [True, False, True, True, None],
+                "ch": ["a", "b", "a", "", None], "k2": ["a", "b", "a", "", None], "s1": [3, 1, 2, 5, 4],
+                "s2": ["a", "b", "a", "c", ""]}]]),
+    ("mx_moveRef", [["UpdateRecord", "T", 1, {"own": 2}]]),                 # a row moves between owners
+    ("mx_moveRef", [["UpdateRecord", "T", 2, {"r": 1}]]),                   # the Ref key changes
+    ("mx_listFlip", [["UpdateRecord", "T", 1, {"tags": "zz"}]]),            # list cell -> non-list value
+    ("mx_listBack", [["UpdateRecord", "T", 1, {"tags": L("a", "b")}]]),     # ... and back
+    ("mx_listFlip", [["UpdateRecord", "T", 1, {"rl": "alt"}]]),
+    ("mx_listBack", [["UpdateRecord", "T", 1, {"rl": L(1)}]]),
+    ("mx_emptyList", [["UpdateRecord", "T", 2, {"tags": None}]]),
+    ("mx_moveList", [["UpdateRecord", "T", 2, {"tags": L("a", "a")}]]),     # duplicates
+    ("mx_swap", [["BulkUpdateRecord", "T", [1, 3], {"own": [2, 2], "tags": [L("b"), L("a", "b")]}]]),
+    ("mx_renameR", [["UpdateRecord", "R", 2, {"name": "a"}]]),              # arecs = [$r,$r]+R.lookupRecords(name=$k2)
+    ("mx_renameR", [["UpdateRecord", "T", 4, {"k2": "a"}]]),
+    ("updP", [["UpdateRecord", "P", 3, {"pr": 1, "p": "b"}]]),
+    ("remR", [["RemoveRecord", "R", 1]]),                                   # references to R[1] are cleaned
+    ("undo", None),
+    ("mx_both", [["UpdateRecord", "T", 5, {"r": 1, "own": 1, "tags": L("a"), "rl": L(1, 1), "s1": 9}]]),
+    ("remT", [["RemoveRecord", "T", 1]]),
+    ("undo", None),
+    ("remP", [["RemoveRecord", "P", 2]]),                                   # T.own references to P[2] are cleaned
+    ("replaceT", [["ReplaceTableData", "T", [2, 7], {"own": [1, 1], "r": [1, 1], "tags": [L("a"), L("b", "a")],
+                                                     "rl": [L(1), None], "s1": [1, 2]}]]),
+  ]
+  return cfg, steps
+
+
+def build_history(pid, job, n_steps, thorough):
+  """job: int = a classic random history; ("mixed", n) = a random mixed-key history;
+  ("trans", v) = exhaustive (Ref key, list cell) transitions; ("fixed", 0) = the scripted witness"""
+  if isinstance(job, int):
+    rng = random.Random("%s/hist/%s" % (pid, job))
+    h = History(make_cfg(rng, job))
+    h.run(rng, n_steps)
+  elif job[0] == "mixed":
+    rng = random.Random("%s/mixed/%s" % (pid, job[1]))
+    h = History(make_cfg_mixed(rng))
+    h.run(rng, n_steps)
+  elif job[0] == "trans":
+    cfg, steps = trans_family(job[1], thorough)
+    h = History(cfg)
+    h.run_script(steps)
+  else:
+    cfg, steps = fixed_witness()
+    h = History(cfg)
+    h.run_script(steps)
+  return h
 
 
 def run_driver(ops):
@@ -1242,8 +1710,20 @@ def compare_sessions(hist_list):
   cnt = {"sessions": 0, "events": 0, "lookups": 0, "dumps": 0, "sessions_left_universe": 0,
          "ordering_assumption_violations": 0,
          "lookups_answered_from_cache": sum(h.tracer.cache_hits for (_, h) in hist_list)}
+  cnt["sessions_combined_contains_and_exact"] = 0
+  cnt["sessions_combined_with_ref_exact"] = 0
+  cnt["sessions_formula_key_columns"] = 0
+  cnt["lookups_combined"] = 0
   for (hi, h, s), ans in zip(sess, answers):
     cnt["sessions"] += 1
+    combined = any(k == "p" for k in s.kinds) and any(k != "p" for k in s.kinds)
+    if combined:
+      cnt["sessions_combined_contains_and_exact"] += 1
+      cnt["lookups_combined"] += sum(1 for ev in s.events if ev[0] == "lookup")
+      if any(k == "p" and c in ("r", "own") for k, c in zip(s.kinds, s.keycols)):
+        cnt["sessions_combined_with_ref_exact"] += 1
+    if s.formula_keys:
+      cnt["sessions_formula_key_columns"] += 1
     pv = protocol_violation(s.events, s.expect)
     if pv is not None:
       cnt["ordering_assumption_violations"] += 1
@@ -1273,24 +1753,25 @@ def compare_sessions(hist_list):
 
 
 def _work(args):
-  (pid, seeds, n_steps) = args
+  (pid, seeds, n_steps, thorough) = args
   common.setup_repo_path()
   out = {"findings": [], "index": [], "mism": [], "stats": {}, "kinds": {}, "cnt": {}, "nontrivial": [],
          "samples": [], "infra": []}
   hs = []
   for seed in seeds:
-    rng = random.Random("%s/hist/%s" % (pid, seed))
-    cfg = make_cfg(rng, seed)
-    h = History(cfg)
     try:
-      h.run(rng, n_steps)
+      h = build_history(pid, seed, n_steps, thorough)
     except common.Infra:
       raise
     except Exception:
       import traceback
       out["infra"].append("seed %s: %s" % (seed, traceback.format_exc()[-1200:]))
       continue
+    cfg = h.cfg
     hs.append((seed, h))
+    if not isinstance(seed, int):
+      out["stats"]["histories_" + seed[0]] = out["stats"].get("histories_" + seed[0], 0) + 1
+      out["stats"]["mx_formula_key_order_errors"] = out["stats"].get("mx_formula_key_order_errors", 0) + h.tracer.order_errors
     if h.tracer.harness_errors:
       out["infra"].append("seed %s: %s" % (seed, h.tracer.harness_errors[0]))
     for (sig, detail, si) in h.findings:
@@ -1317,14 +1798,19 @@ def _work(args):
   return out
 
 
-def run_histories(ck, n, n_steps, procs):
+def run_histories(ck, n, n_steps, procs, n_mixed=0, n_trans=0):
+  thorough = ck.tier == "thorough"
   seeds = [ck.seed * 100000 + i for i in range(n)]
+  # the mixed-key stream: scripted witness, exhaustive transitions, random mixed histories (the
+  # longest jobs first)
+  seeds = [("trans", v) for v in range(n_trans)] + seeds
+  seeds += [("mixed", ck.seed * 100000 + i) for i in range(n_mixed)] + ([("fixed", 0)] if n_mixed else [])
   if procs <= 1:
-    results = [_work((ck.pid, seeds, n_steps))]
+    results = [_work((ck.pid, seeds, n_steps, thorough))]
   else:
     import multiprocessing
     chunks = [seeds[i::procs * 4] for i in range(procs * 4)]
-    args = [(ck.pid, c, n_steps) for c in chunks if c]
+    args = [(ck.pid, c, n_steps, thorough) for c in chunks if c]
     with multiprocessing.get_context("fork").Pool(procs) as pool:
       results = pool.map(_work, args, chunksize=1)
   infra = [x for r in results for x in r["infra"]]
@@ -1629,7 +2115,16 @@ def run(ck):
              "ChoiceList, RefList, Any-with-lists; adds, key/sort/manualSort updates, raw doc-action writes, removals, "
              "ReplaceTableData, type changes of the key column, undo, reference-target removal) probed by 14 of 22 lookup "
              "formulas per history (exact / multi-column / Ref / CONTAINS / match_empty, 10 order variants, lookupOne) "
-             "plus direct lookup_records calls; every LookupMapColumn event stream replayed in the Lean machine; "
+             "plus direct lookup_records calls; MIXED-KEY stream: histories whose T also has own Ref:P, b Bool, ch Choice, "
+             "n Int and two Any FORMULA columns holding lists of Records / ints / both (5+4 formula variants), probed by 8 "
+             "fixed + 8 generated lookups of 1-3 keys combining CONTAINS (ChoiceList / RefList / Any list / Any formula "
+             "list, with and without match_empty) with equality keys on Ref / Int / Text / Bool / Choice columns, keys given "
+             "as Records ($pr, rec), row ids ($pr.id, $id) and plain values, lookupRecords and lookupOne, 9 order variants; "
+             "edits of the indexed cells (Ref key moved, list cell -> non-list value and back, emptied, duplicates, two "
+             "rows swapping keys, formula inputs renamed, reference targets removed, undo) judged after every bundle; an "
+             "EXHAUSTIVE small scope (every ordered pair of (Ref key, list cell) states of one row: 12x12 quick, 24x24 x 3 "
+             "formula variants thorough) and a fixed scripted witness; every LookupMapColumn event stream (the combined "
+             "ones included) replayed in the Lean machine; "
              "TwoWayMap op sequences over all 25 bin pairs (all 2-3 op sequences over an 8-op alphabet + random); "
              "make_sort_spec on tuples/strings/None/malformed; non-trivial = a probe cell with >=3 result rows under "
              "an explicit order, a TwoWayMap sequence containing a failing call, a sort spec of >=2 columns; "
@@ -1642,6 +2137,15 @@ def run(ck):
     "key type conversion (usertypes convert + rich value of the looked-up column) is a parameter taken from the real tree",
     "0/False in a CONTAINS(match_empty) column: either answer accepted by the oracle",
     "dict / set iteration order is not observable in the modelled code",
+    "a Record counts as its row id, as a key, as a cell and as an element of a list cell (documented for Reference "
+    "columns); Records given as keys are of the table the looked-up column refers to",
+    "combined CONTAINS + equality lookups: judged by the direct oracle (naive scan over the cells) AND tied to the Lean "
+    "event machine (its kinds list already mixes exact and CONTAINS columns); what the machine does NOT model is "
+    "lookup._extract itself: the harness maps Record -> row id before cells / keys reach the model, so that a real index "
+    "holding Record objects instead of row ids is detected by the direct oracle and the naive index recomputation only",
+    "Any FORMULA key columns: their cells are computed inside update_record / _reset_sorted_versions, the tie reads them "
+    "after the call; calls that end in OrderError (formula not yet up to date; index untouched) are not events; cells "
+    "holding RecordStub (formula values restored by an undo until recomputed) leave the model universe",
   ]
   ck.lean(["GristProps.C13"])
   thorough = ck.tier == "thorough"
@@ -1653,7 +2157,8 @@ def run(ck):
     mism = {"stream": "witness", "diff": w}
   procs = min(14, os.cpu_count() or 1) if thorough else min(4, os.cpu_count() or 1)
   n = 560 if thorough else 16
-  results = run_histories(ck, n, 40 if thorough else 24, procs)
+  results = run_histories(ck, n, 40 if thorough else 24, procs,
+                          n_mixed=280 if thorough else 6, n_trans=3 if thorough else 1)
   index_first = None
   for r in results:
     for (sig, detail, rp) in r["findings"]:
